@@ -104,6 +104,27 @@ pub fn run(ctx: &Ctx) -> i32 {
             }
         });
     });
+    // one level deeper with binary branching (4 internal nodes, <= 5 leaves): the smallest trees in
+    // which an infoset of the deviating player has one reachable node and one behind a
+    // zero-probability action that leads on to a further, wholly unreachable infoset; one distinct
+    // payoff fill per skeleton, coarse grid (pure strategies, zeros and interior points)
+    if !ctx.thorough() {
+        let deeper = crate::universe::Bounds { max_internal: 4, max_arity: 2, max_leaves: 5, chance_infosets: true, degenerate: true };
+        let skels4 = skeletons(&deeper);
+        ctx.set("deeper_binary_universe_skeletons", json!(skels4.len()));
+        skels4.par_iter().enumerate().for_each(|(ind, skel)| {
+            if ctx.stopped() || skel.num_internal() < 4 || !has_decision(skel) {
+                return;
+            }
+            let tree = crate::universe::fill_distinct(skel, ind);
+            let (profs, _) = profiles(&tree, false, 81);
+            ctx.count("deeper_binary_games", 1);
+            for prof in &profs {
+                check_case(ctx, &tree, prof);
+                ctx.case(tree.num_internal() as u64 + tree.num_leaves() as u64, true);
+            }
+        });
+    }
     // curated families with the quick grid
     for (name, tree) in families() {
         let (profs, _) = profiles(&tree, false, 400);
